@@ -270,7 +270,7 @@ def replay(case):
 
 
 def run(rep, tier, seed):
-    plan = dyn.standard_plan(tier, CHAINS, CHAINS_HI, held_lo='full', held_hi='two' if tier == 'quick' else 'small', sigma_hi='door5')
+    plan = dyn.standard_plan(tier, CHAINS, CHAINS_HI, held_lo='full' if tier == 'quick' else 'small', held_hi='two', sigma_hi='door5')
     rep.bounds['chains'] = ['+'.join(c) for c in CHAINS]
     # colourless (Color.NONE) doors and keys: an empty hand also has colour NONE
     for sh in ((1, 2), (1, 3), (2, 2)):
@@ -280,8 +280,8 @@ def run(rep, tier, seed):
     if tier == 'quick':
         names, init_limit, max_states, gcap = ['keydoor.5x5', 'keydoor.7x7'], 300, 40000, 6
     else:
-        names, init_limit, max_states, gcap = ['keydoor.5x5', 'keydoor.7x7'], 600, 60000, 16
-    rs, rt = dyn.run_reach(rep, names, init_limit, max_states, make_hooks, replay, 'door_protocol', group_cap=gcap, lineages=2 if tier == 'quick' else 3)
+        names, init_limit, max_states, gcap = ['keydoor.5x5', 'keydoor.7x7'], 400, 40000, 8
+    rs, rt = dyn.run_reach(rep, names, init_limit, max_states, make_hooks, replay, 'door_protocol', group_cap=gcap, lineages=2)
     sb = 0
     nested = [U.box(U.box(U.key(U.C1))), U.box(U.key(U.C1)), U.box(U.box(U.box(U.FLOOR))), U.door(1, U.C1), U.door(2, U.C1)]
     for obj in nested:
